@@ -135,7 +135,7 @@ def atom_key(a):
     return (a[0], a[1]), True
 
 
-def _fact_atoms(s):
+def _fact_atoms(s, alias=None):
     out = []
     for text, value, sk in s.facts:
         if sk is None:
@@ -143,11 +143,20 @@ def _fact_atoms(s):
         else:
             for a in skel_atoms(sk):
                 if a[0] != 'const':
-                    out.append(atom_key(a)[0])
+                    out.append(_aliased(atom_key(a), alias)[0])
     return out
 
 
-def consistent(s, assign):
+def _aliased(kp, alias):
+    """alias(key) -> (other key, same polarity?) lets a rule state that two differently built tests decide the same relation."""
+    k, pos = kp
+    m = alias(k) if alias is not None else None
+    if m is None:
+        return k, pos
+    return m[0], (pos if m[1] else not pos)
+
+
+def consistent(s, assign, alias=None):
     """Does the path's list of decisions agree with the assignment of truth values to relations?"""
     for text, value, sk in s.facts:
         if sk is None:
@@ -158,7 +167,7 @@ def consistent(s, assign):
         def val(a):
             if a[0] == 'const':
                 return a[1]
-            k, pos = atom_key(a)
+            k, pos = _aliased(atom_key(a), alias)
             v = assign.get(k)
             return None if v is None else (v if pos else not v)
         ev = eval_skel(sk, val)
@@ -167,10 +176,10 @@ def consistent(s, assign):
     return True
 
 
-def assignments(states, limit=12):
+def assignments(states, limit=12, alias=None):
     keys = []
     for s in states:
-        for k in _fact_atoms(s):
+        for k in _fact_atoms(s, alias):
             if k not in keys:
                 keys.append(k)
     if len(keys) > limit:
@@ -347,14 +356,28 @@ def check_attributes(rep, prog, rid):
     rel = None
     for s in raising:
         rel = rel or pair_relation(s)
+
+    def alias(k):
+        """`[.. for a, e in conditions.items() if getattr(key, a) != e]` non-empty / any(..) / not all(..): some pair differs"""
+        t = None
+        if k[0] == 'expr' and k[1].startswith('EACH('):
+            m = re.match(r'^EACH\(.+? in .+? if \((.+) != (.+?)\);', k[1])
+            t = (m.group(1), m.group(2), False) if m else None
+        elif k[0] == 'call' and k[1] in ('any', 'all') and len(k[2]) == 1:
+            m = re.match(r'^EACH\(.+? in [^;]+;\((.+) (!=|==) (.+)\)\)$', k[2][0])
+            if m and (k[1], m.group(2)) in (('any', '!='), ('all', '==')):
+                t = (m.group(1), m.group(3), k[1] == 'all')
+        if t is not None and rel is not None and frozenset(t[:2]) == rel[1]:
+            return rel, t[2]
+        return None
     ok = rel is not None and bool(quiet)
     detail = 'no comparison of getattr(%s, <attr>) with the declared value found' % kp
     if ok:
-        n_mis = n_eq = 0
-        for assign in assignments(raising):
+        n_mis = 0
+        for assign in assignments(raising, alias=alias):
             if any(k[0] == 'opaque' and k[1].startswith('in loop over') and not v for k, v in assign.items()):
                 continue
-            hit = [s for s in raising if consistent(s, assign)]
+            hit = [s for s in raising if consistent(s, assign, alias)]
             if assign.get(rel) is False:
                 n_mis += 1
                 if not hit:
@@ -362,6 +385,11 @@ def check_attributes(rep, prog, rid):
             elif assign.get(rel) is True and hit:
                 ok, detail = False, 'raises although the condition holds under [%s]' % _show(assign)
         ok = ok and n_mis > 0
+    # the scan of the conditions only ends early by raising (the interpreter summarises the loop, so look at its exits)
+    for loop in [n for n in ast.walk(ca.node) if isinstance(n, (ast.For, ast.While))]:
+        early = [n for b in loop.body for n in ast.walk(b) if isinstance(n, (ast.Break, ast.Return))]
+        if ok and early:
+            ok, detail = False, 'the loop over the conditions is left at line %d before every condition was compared' % early[0].lineno
     rep.check(ok, rid, 'KeyAction.check_attributes', 'for attr, expected in conditions: if getattr(key, attr) != expected: raise',
               'every declared condition must be compared and any mismatch must raise', where=ca.where,
               expected='raise iff getattr(%s, attr) != expected for some (attr, expected) in %s.conditions' % (kp, me), found=None if ok else detail)
@@ -495,7 +523,7 @@ def check_usage_scan(rep, prog, rid):
             for capv in itertools.product((False, True), repeat=3) if flags else ((False, False, False),):
                 caps = dict(zip(comps, capv))
                 orc = UsageOracle(me, kp, up, flags, require, caps)
-                sc = Scenario(args={kp: Sym(kp, nonnull=True)}, unroll=unroll, oracle=orc, inline=noinline)
+                sc = Scenario(args={kp: Sym(kp, nonnull=True)}, unroll=unroll, oracle=orc, inline=lambda f: f.cls is ka and f is not u)
                 outs = Interp(prog, sc).run(u)
                 wrong += [t for t in orc.wrong if t not in wrong]
                 unknown += [t for t in orc.unknown if t not in unknown]
